@@ -50,8 +50,8 @@ def expected_depths(spec, cfg, contig, start, stop):
 @st.composite
 def case_strategy(draw):
     n_bams = draw(st.integers(1, 3))
-    spec = draw(D.dataset_spec(max_loci=2, max_snvs=4, max_samples=1, max_reads=14, paired=False, flags=False, multi_rg=False,
-                               mapq_values=(0, 10, 19, 20, 21, 30, 60), n_contigs=1, min_reads=2, locus_len=(8, 20)))
+    spec = draw(D.dataset_spec(max_loci=2, max_snvs=8, max_samples=1, max_reads=14, paired=False, flags=False, multi_rg=False,
+                               mapq_values=(0, 10, 19, 20, 21, 30, 60), n_contigs=1, min_reads=2, locus_len=(8, 14), sub_rate=4))
     # replicate into n_bams single-sample bams with independent reads
     base = spec["bams"][0]
     bams = []
@@ -59,8 +59,8 @@ def case_strategy(draw):
         if i == 0:
             reads = base["reads"]
         else:
-            other = draw(D.dataset_spec(max_loci=2, max_snvs=4, max_samples=1, max_reads=14, paired=False, flags=False, multi_rg=False,
-                                        mapq_values=(0, 10, 19, 20, 21, 30, 60), n_contigs=1, min_reads=2, locus_len=(8, 20)))
+            other = draw(D.dataset_spec(max_loci=2, max_snvs=8, max_samples=1, max_reads=14, paired=False, flags=False, multi_rg=False,
+                                        mapq_values=(0, 10, 19, 20, 21, 30, 60), n_contigs=1, min_reads=2, locus_len=(8, 14), sub_rate=4))
             # re-map the other dataset's reads onto this reference: keep geometry, re-derive sequence from this reference
             reads = []
             ref = spec["contigs"][0]["seq"]
@@ -101,8 +101,9 @@ def case_strategy(draw):
            "keep_qcfail": draw(st.booleans()), "keep_supp": draw(st.booleans()), "rg_field": "SM"}
     return {"kind": "find_snvs", "spec": spec, "cfg": cfg,
             "thr": {"ind_maf_pick": draw(st.integers(0, 50)), "ind_maf_eps": draw(st.sampled_from([0, 0, 1, -1])),
-                    "ind_mad": draw(st.integers(0, 5)), "min_ind": draw(st.integers(0, n_bams)),
-                    "maf_pick": draw(st.integers(0, 50)), "maf_on": draw(st.booleans()), "mad": draw(st.integers(0, 8))}}
+                    "ind_mad": draw(st.sampled_from([0, 1, 1, 2, 2, 3, 4])), "min_ind": draw(st.sampled_from([1, 1, 1, 0] + list(range(1, n_bams + 1)))),
+                    "maf_pick": draw(st.integers(0, 50)), "maf_on": draw(st.integers(0, 3)) == 0, "mad": draw(st.sampled_from([0, 0, 0, 1, 2, 3, 5, 8])),
+                    "mad_realised": draw(st.integers(0, 2)) == 0, "mad_pick": draw(st.integers(0, 50))}}
 
 
 def cfg_args(cfg):
@@ -171,12 +172,16 @@ def check_case(ctx, case):
 
         # ---------------- run 2: thresholds
         with guard(problems, "thresholds"):
-            freqs = sorted({round(c / sum(x), 12) for locus in spec["loci"] for per in expected_depths(spec, cfg, locus["contig"], locus["start"], locus["stop"]).values() for x in per if sum(x) > 0 for c in x if c > 0})
+            freqs = sorted({c / sum(x) for locus in spec["loci"] for per in expected_depths(spec, cfg, locus["contig"], locus["start"], locus["stop"]).values() for x in per if sum(x) > 0 for c in x if c > 0})
             t = case["thr"]
             ind_maf = 0.1
             if freqs:
                 ind_maf = min(1.0, max(0.0, freqs[t["ind_maf_pick"] % len(freqs)] + t["ind_maf_eps"] * 1e-3))
             maf = (freqs[t["maf_pick"] % len(freqs)] / max(1, n_b)) if (freqs and t["maf_on"]) else 0.0
+            if t.get("mad_realised"):
+                totals = sorted({sum(x[a] for x in per) for locus in spec["loci"] for per in expected_depths(spec, cfg, locus["contig"], locus["start"], locus["stop"]).values() for a in range(4)} - {0})
+                if totals:
+                    t = dict(t, mad=totals[t["mad_pick"] % len(totals)])
             args2 = base_args + ["--ind-maf", repr(ind_maf), "--ind-mad", t["ind_mad"], "--min-ind", t["min_ind"], "--maf", repr(maf), "--mad", t["mad"]]
             out2, err2 = CLI.run_inprocess("find-snvs", args2)
             if err2 is not None:
@@ -204,8 +209,8 @@ def check_case(ctx, case):
                             if tt == 0:
                                 continue
                             f = x[a] / tt
-                            if abs(f - ind_maf) < eps:
-                                ambiguous = True
+                            if abs(f - ind_maf) < eps and f != ind_maf:
+                                ambiguous = True  # (an exactly realised threshold is decidable: same IEEE division)
                             if f >= ind_maf and x[a] >= t["ind_mad"]:
                                 n_ind += 1
                         ok = n_ind >= t["min_ind"]
@@ -223,6 +228,11 @@ def check_case(ctx, case):
                     if ambiguous:
                         ctx.count("threshold_boundary_or_undefined_skipped")
                         continue
+                    if any(tt > 0 and x[a] > 0 and x[a] == t["ind_mad"] and x[a] / tt >= ind_maf for x, tt in zip(per, tot) for a in range(4)):
+                        ctx.count("decided_on_ind_mad_boundary")
+                    if any(tt > 0 and x[a] > 0 and x[a] / tt == ind_maf and x[a] >= t["ind_mad"] for x, tt in zip(per, tot) for a in range(4)):
+                        ctx.count("decided_on_ind_maf_boundary")
+                    ctx.count("positions_decided")
                     rec = by_pos.get((locus["contig"], p))
                     n_q = sum(qualifies)
                     if (rec is not None) != (n_q >= 2):
